@@ -192,15 +192,17 @@ Definition pats_of (l : list (list achar)) : list (list pchar) :=
 
 Definition nat_list_eqb : list nat -> list nat -> bool := list_eqb Nat.eqb.
 
-(* `case`: clause 3 (code 5): the first body that runs belongs to the first
-   item with a matching pattern, and nothing runs if there is none *)
+(* `case`: code 5: the first body that runs does not belong to the first item
+   with a matching pattern (or one runs though none matches); code 11: the
+   later bodies are not the ones ;; ;& ;;& prescribe *)
 Definition run_case_cmd (subject : str) (items : list (list (list achar) * continuation))
     (executed : list nat) : verdict :=
   let pitems := map (fun it => (pats_of (fst it), snd it)) items in
-  match all_some (map (fun it => all_some (map spec_parse (fst it))) pitems) with
+  match all_some (map (fun it => omap (fun l => (l, snd it)) (all_some (map spec_parse (fst it)))) pitems) with
   | None => 99%N
   | Some sitems =>
-      if negb (option_eqb Nat.eqb (hd_error executed) (first_matching subject sitems 0)) then 5%N
+      if negb (option_eqb Nat.eqb (hd_error executed) (first_matching subject (map fst sitems) 0)) then 5%N
+      else if negb (nat_list_eqb executed (spec_case_run subject sitems 0 false)) then 11%N
       else
         match case_model subject pitems with
         | None => 99%N
